@@ -1,6 +1,824 @@
-/- C20 - property theorems (stub: not built yet) -/
-import NotationModel.Model.C20
+/-
+C20 - Plugin installation follows the version rules and never half-replaces a plugin.
+Property theorems; the model is in `Model/C20.lean`, helper lemmas in `Lemmas/C20*.lean`.
+-/
+import NotationModel.Lemmas.C20Install
+set_option linter.unusedSimpArgs false
+set_option linter.unusedVariables false
 
 namespace NotationModel.C20
+
+/-! ## 0. facts read from the Go source this run (a changed fact breaks these proofs) -/
+
+/-- the model's grammar (`parseVersion`) was written against exactly this pattern -/
+theorem semver_regex_pinned : Facts.semverRegex =
+    "^(0|[1-9]\\d*)\\.(0|[1-9]\\d*)\\.(0|[1-9]\\d*)(?:-((?:0|[1-9]\\d*|\\d*[a-zA-Z-][0-9a-zA-Z-]*)(?:\\.(?:0|[1-9]\\d*|\\d*[a-zA-Z-][0-9a-zA-Z-]*))*))?(?:\\+([0-9a-zA-Z-]+(?:\\.[0-9a-zA-Z-]+)*))?$" := rfl
+
+/-- `IsValid` is the regex; `ComparePluginVersion` = both valid, then x/mod/semver.Compare with "v" -/
+theorem semver_calls_pinned :
+    Facts.semverIsValidCalls = ["semVerRegEx.MatchString(version)"] ∧
+    Facts.semverCompareCalls = ["IsValid(v)", "IsValid(w)", "semver.Compare(\"v\"+v,\"v\"+w)"] := by
+  decide
+
+/-- both directory walks skip every sub-directory (and only the root is not skipped) -/
+theorem skip_tests_pinned :
+    Facts.copyDirSkipTest = "d.IsDir()&&path!=src" ∧ Facts.parseDirSkipTest = "d.IsDir()&&p!=path" := by
+  decide
+
+theorem file_mode_facts_pinned :
+    Facts.isExecutableTest = "mode.Perm()&0100!=0" ∧
+    Facts.copyToDirChmod = "sourceFileInfo.Mode()&os.FileMode(0755)" := by
+  decide
+
+theorem name_facts_pinned :
+    Facts.binaryPrefix = "notation-" ∧ Facts.binNameExpr = "plugin.BinaryPrefix+name" ∧
+    Facts.parsePluginNameCalls = ["strings.CutPrefix(fileName,plugin.BinaryPrefix)"] ∧
+    Facts.validatePluginNameTest = "name==\"\"||name==\".\"||name==\"..\"||strings.ContainsAny(name,\"/\\\\\\x00\")" := by
+  decide
+
+/-- in `Install` every check (locating, name, new metadata, existing plugin, versions) comes
+before the removal of the old directory, and only the copy follows it -/
+theorem removal_after_all_checks :
+    Facts.installCalls = ["parsePluginFromDir", "parsePluginName", "isExecutableFile", "validatePluginName",
+      "NewCLIPlugin", "newPlugin.GetMetadata", "m.Get", "existingPlugin.GetMetadata",
+      "semver.ComparePluginVersion", "m.Uninstall", "file.CopyToDir", "file.CopyDirToDir"] ∧
+    Facts.uninstallCalls = ["validatePluginName", "m.pluginFS.SysPath", "os.Stat", "os.RemoveAll"] := by
+  decide
+
+/-! ## 1. the model satisfies every clause, for all inputs -/
+
+/-- every plugin of the observed root answers -/
+def AllAns (R : List PluginObs) : Prop := R.all (·.version.isSome) = true
+
+theorem versionCheck_cases (ex : Option Text) (ow : Bool) (vn : Text) :
+    (ow = true ∧ versionCheck ex ow vn = .ok ex) ∨
+    (ow = false ∧ ex = none ∧ versionCheck ex ow vn = .error .other) ∨
+    (ow = false ∧ ∃ vo, ex = some vo ∧
+      ((compareVersions vn vo = none ∧ versionCheck ex ow vn = .error .other) ∨
+       (compareVersions vn vo = some .lt ∧ versionCheck ex ow vn = .error .downgrade) ∨
+       (compareVersions vn vo = some .eq ∧ versionCheck ex ow vn = .error .equalVersion) ∨
+       (compareVersions vn vo = some .gt ∧ versionCheck ex ow vn = .ok (some vo)))) := by
+  cases ow
+  · cases ex with
+    | none => simp [versionCheck]
+    | some vo =>
+      simp only [versionCheck]
+      cases hc : compareVersions vn vo with
+      | none => simp [hc]
+      | some o => cases o <;> simp [hc]
+  · simp [versionCheck]
+
+/-- case analysis shared by the clause proofs -/
+macro "install_cases" R:ident op:ident c:ident : tactic => `(tactic| (
+  unfold specStep $c
+  cases hk : Op.kind $op with
+  | uninstall => simp [isInstall, hk, mkStep]
+  | install =>
+    cases hn : specNew $op with
+    | none => simp [isInstall, hk, mkStep, hn]
+    | some nw =>
+      simp only [ruleR]
+      cases hl : lookupR $R nw.name with
+      | none => simp [isInstall, hk, mkStep, hn, hl]
+      | some p =>
+        obtain ⟨pn, pf, pv⟩ := p
+        rcases versionCheck_cases pv (Op.overwrite $op) nw.version with
+          ⟨ho, h⟩ | ⟨ho, hv, h⟩ | ⟨ho, vo, hv, h | h | h | h⟩
+        all_goals (try subst hv)
+        all_goals (rw [ho] at h)
+        all_goals simp [isInstall, hk, mkStep, h, hn, hl, ho, higher, relTo]))
+
+theorem spec_refusedNoop (R : List PluginObs) (op : Op) : cRefusedNoop (R, op, specStep R op) = true := by
+  unfold specStep cRefusedNoop
+  cases hk : op.kind with
+  | uninstall =>
+    simp only []
+    by_cases hv : validName op.name = true
+    · cases hl : lookupR R op.name <;> simp [hv, hl, mkStep]
+    · simp [hv, mkStep]
+  | install =>
+    cases hn : specNew op with
+    | none => simp [mkStep]
+    | some nw =>
+      simp only []
+      cases hr : ruleR (lookupR R nw.name) op.overwrite nw <;> simp [mkStep]
+
+theorem spec_installExact (R : List PluginObs) (op : Op) : cInstallExact (R, op, specStep R op) = true := by
+  install_cases R op cInstallExact
+
+theorem spec_replaceOnlyIf (R : List PluginObs) (op : Op) : cReplaceOnlyIf (R, op, specStep R op) = true := by
+  install_cases R op cReplaceOnlyIf
+
+theorem spec_installWhenAllowed (R : List PluginObs) (op : Op) :
+    cInstallWhenAllowed (R, op, specStep R op) = true := by
+  install_cases R op cInstallWhenAllowed
+
+theorem spec_listed (R : List PluginObs) (op : Op) : cListed (R, op, specStep R op) = true := by
+  unfold specStep cListed
+  cases hk : op.kind with
+  | uninstall =>
+    simp only []
+    by_cases hv : validName op.name = true
+    · cases hl : lookupR R op.name <;> simp [hv, hl, mkStep]
+    · simp [hv, mkStep]
+  | install =>
+    cases hn : specNew op with
+    | none => simp [mkStep]
+    | some nw =>
+      simp only []
+      cases hr : ruleR (lookupR R nw.name) op.overwrite nw <;> simp [mkStep]
+
+theorem spec_uninstall (R : List PluginObs) (op : Op) : cUninstall (R, op, specStep R op) = true := by
+  unfold specStep cUninstall
+  cases hk : op.kind with
+  | install => simp [isInstall, hk]
+  | uninstall =>
+    simp only [isInstall, hk]
+    by_cases hv : validName op.name = true
+    · cases hl : lookupR R op.name <;> simp [hv, hl, mkStep]
+    · simp [hv, mkStep]
+
+theorem allAns_specStep {R : List PluginObs} (h : AllAns R) (op : Op) : AllAns (specStep R op).root := by
+  have hdel : ∀ n, AllAns (delBy PluginObs.name n R) := by
+    intro n
+    unfold AllAns at h ⊢
+    rw [List.all_eq_true] at h ⊢
+    intro x hx; exact h x (List.mem_filter.1 hx).1
+  unfold specStep
+  cases hk : op.kind with
+  | uninstall =>
+    simp only []
+    by_cases hv : validName op.name = true
+    · cases hl : lookupR R op.name <;> simp [hv, hl, mkStep, h, hdel]
+    · simp [hv, mkStep, h]
+  | install =>
+    cases hn : specNew op with
+    | none => simp [mkStep, h]
+    | some nw =>
+      simp only []
+      cases hr : ruleR (lookupR R nw.name) op.overwrite nw with
+      | error e => simp [mkStep, h]
+      | ok ex =>
+        simp only [mkStep]
+        have := hdel nw.name
+        unfold AllAns at this ⊢
+        rw [List.all_eq_true] at this ⊢
+        intro x hx
+        rcases mem_putBy PluginObs.name hx with rfl | hx
+        · rfl
+        · exact this x hx
+
+theorem spec_answers {R : List PluginObs} (h : AllAns R) (op : Op) : cAnswers (R, op, specStep R op) = true :=
+  allAns_specStep h op
+
+theorem spec_refusalClass (R : List PluginObs) (op : Op) : cRefusalClass (R, op, specStep R op) = true := by
+  unfold specStep cRefusalClass
+  cases hk : op.kind with
+  | uninstall =>
+    simp only []
+    by_cases hv : validName op.name = true
+    · cases hl : lookupR R op.name <;> simp [hv, hl, mkStep]
+    · simp [hv, mkStep]
+  | install =>
+    cases hn : specNew op with
+    | none => simp [isInstall, hk, mkStep, hn]
+    | some nw =>
+      simp only [ruleR]
+      cases hl : lookupR R nw.name with
+      | none => simp [isInstall, hk, mkStep, hn, hl]
+      | some p =>
+        obtain ⟨pn, pf, pv⟩ := p
+        rcases versionCheck_cases pv op.overwrite nw.version with
+          ⟨ho, h⟩ | ⟨ho, hv, h⟩ | ⟨ho, vo, hv, h | h | h | h⟩
+        all_goals (try subst hv)
+        all_goals (rw [ho] at h)
+        all_goals simp [isInstall, hk, mkStep, h, hn, hl, ho, higher, relTo]
+
+theorem specRun_length : ∀ (ops : List Op) (R : List PluginObs), (specRun R ops).length = ops.length := by
+  intro ops; induction ops with
+  | nil => intro R; rfl
+  | cons op ops ih => intro R; simp [specRun, ih]
+
+/-- a clause that every observable-level step satisfies holds along every run -/
+theorem triples_specRun (P : Triple → Bool)
+    (hP : ∀ R op, AllAns R → P (R, op, specStep R op) = true) :
+    ∀ (ops : List Op) (R : List PluginObs), AllAns R → (triples ops (specRun R ops) R).all P = true := by
+  intro ops
+  induction ops with
+  | nil => intro R _; rfl
+  | cons op ops ih =>
+    intro R h
+    simp only [specRun, triples, List.all_cons, hP R op h, Bool.true_and]
+    exact ih _ (allAns_specStep h op)
+
+/-- `ComparePluginVersion` fails exactly when one of the two strings is not a version -/
+theorem compare_defined_iff (v w : Text) :
+    (compareVersions v w).isSome = (isValid v && isValid w) := by
+  unfold compareVersions isValid
+  cases parseVersion v <;> cases parseVersion w <;> rfl
+
+theorem inv_nil : Inv [] := fun _ h => by cases h
+
+/-- **the model satisfies the property for every input** (any sequence of operations of any
+length over any sources, any pair of version strings; no well-formedness hypothesis) -/
+theorem model_holds (i : Input) : Holds i (run i) = true := by
+  unfold Holds clauses run
+  by_cases hk : (i.kind == "semver") = true
+  · simp [hk, Clauses.holds, compare_defined_iff]
+  · simp only [hk, if_false, Bool.false_eq_true]
+    rw [runOps_eq_spec i.ops inv_nil]
+    have h0 : AllAns (observe []) := rfl
+    simp only [Clauses.holds, List.all_cons, List.all_nil, Bool.and_true, Bool.and_eq_true]
+    refine ⟨by simp [specRun_length], ?_, ?_, ?_, ?_, ?_, ?_, ?_, ?_⟩
+    · exact triples_specRun _ (fun R op _ => spec_refusedNoop R op) _ _ h0
+    · exact triples_specRun _ (fun R op _ => spec_installExact R op) _ _ h0
+    · exact triples_specRun _ (fun R op _ => spec_replaceOnlyIf R op) _ _ h0
+    · exact triples_specRun _ (fun R op _ => spec_installWhenAllowed R op) _ _ h0
+    · exact triples_specRun _ (fun R op _ => spec_refusalClass R op) _ _ h0
+    · exact triples_specRun _ (fun R op _ => spec_listed R op) _ _ h0
+    · exact triples_specRun _ (fun R op h => spec_answers h op) _ _ h0
+    · exact triples_specRun _ (fun R op _ => spec_uninstall R op) _ _ h0
+
+/-! ## 2. semantic-version precedence (semver.org item 11), declaratively -/
+
+/-- lexicographic order: a proper prefix is smaller; else the first difference decides -/
+inductive LexLt {α : Type} (r : α → α → Prop) : List α → List α → Prop
+  | nil {b : α} {bs : List α} : LexLt r [] (b :: bs)
+  | head {a b : α} {as bs : List α} : r a b → LexLt r (a :: as) (b :: bs)
+  | tail {a : α} {as bs : List α} : LexLt r as bs → LexLt r (a :: as) (a :: bs)
+
+theorem LexLt.imp {α : Type} {r r' : α → α → Prop} (h : ∀ a b, r a b → r' a b) :
+    ∀ {l m : List α}, LexLt r l m → LexLt r' l m := by
+  intro l m hl
+  induction hl with
+  | nil => exact .nil
+  | head hr => exact .head (h _ _ hr)
+  | tail _ ih => exact .tail ih
+
+theorem andThen_lt (o p : Ordering) : andThen o p = .lt ↔ o = .lt ∨ (o = .eq ∧ p = .lt) := by
+  cases o <;> simp [andThen]
+
+theorem lex_lt_iff {α : Type} {c : α → α → Ordering} (g : Good c) :
+    ∀ (as bs : List α), lex c as bs = .lt ↔ LexLt (fun a b => c a b = .lt) as bs := by
+  intro as
+  induction as with
+  | nil =>
+    intro bs
+    cases bs with
+    | nil => exact ⟨fun h => by simp [lex] at h, fun h => by cases h⟩
+    | cons b bs => exact ⟨fun _ => .nil, fun _ => rfl⟩
+  | cons a as ih =>
+    intro bs
+    cases bs with
+    | nil => exact ⟨fun h => by simp [lex] at h, fun h => by cases h⟩
+    | cons b bs =>
+      rw [lex_cons_cons, andThen_lt]
+      constructor
+      · rintro (h | ⟨h1, h2⟩)
+        · exact .head h
+        · have := g.eq_imp a b h1; subst this
+          exact .tail ((ih bs).1 h2)
+      · intro h
+        cases h with
+        | head hr => exact Or.inl hr
+        | tail ht => exact Or.inr ⟨g.refl a, (ih bs).2 ht⟩
+
+/-- ASCII (code point) lexical order -/
+def TextLt : Text → Text → Prop := LexLt (fun a b => a.toNat < b.toNat)
+
+/-- precedence of two pre-release identifiers -/
+inductive IdentLt : Ident → Ident → Prop
+  | num {a b : Nat} : a < b → IdentLt (.num a) (.num b)             -- numeric: numerically
+  | numAlnum {a : Nat} {s : Text} : IdentLt (.num a) (.alnum s)      -- numeric below alphanumeric
+  | alnum {s t : Text} : TextLt s t → IdentLt (.alnum s) (.alnum t)  -- alphanumeric: ASCII lexical
+
+/-- a pre-release is below the release; two pre-releases compare identifier by identifier,
+a larger set of fields is higher when all preceding ones are equal -/
+def PreLt (p q : List Ident) : Prop := (p ≠ [] ∧ q = []) ∨ (p ≠ [] ∧ q ≠ [] ∧ LexLt IdentLt p q)
+
+/-- `v` has lower precedence than `w` (build metadata is not part of a `Version`) -/
+def Prec (v w : Version) : Prop :=
+  v.major < w.major ∨ (v.major = w.major ∧ (v.minor < w.minor ∨ (v.minor = w.minor ∧
+    (v.patch < w.patch ∨ (v.patch = w.patch ∧ PreLt v.pre w.pre)))))
+
+theorem cmpText_lt_iff (s t : Text) : cmpText s t = .lt ↔ TextLt s t := by
+  unfold cmpText TextLt
+  rw [lex_lt_iff good_cmpChar]
+  constructor
+  · exact LexLt.imp (fun a b h => (cmpNat_lt _ _).1 h)
+  · exact LexLt.imp (fun a b h => (cmpNat_lt _ _).2 h)
+
+theorem cmpIdent_lt_iff (a b : Ident) : cmpIdent a b = .lt ↔ IdentLt a b := by
+  cases a with
+  | num a =>
+    cases b with
+    | num b =>
+      exact ⟨fun h => .num ((cmpNat_lt _ _).1 h), fun h => by cases h with | num h => exact (cmpNat_lt _ _).2 h⟩
+    | alnum t => exact ⟨fun _ => .numAlnum, fun _ => rfl⟩
+  | alnum s =>
+    cases b with
+    | num b => exact ⟨fun h => by simp [cmpIdent] at h, fun h => by cases h⟩
+    | alnum t =>
+      exact ⟨fun h => .alnum ((cmpText_lt_iff _ _).1 h), fun h => by cases h with | alnum h => exact (cmpText_lt_iff _ _).2 h⟩
+
+theorem cmpPre_lt_iff (p q : List Ident) : cmpPre p q = .lt ↔ PreLt p q := by
+  unfold PreLt
+  cases p with
+  | nil => cases q <;> simp [cmpPre]
+  | cons a as =>
+    cases q with
+    | nil => simp [cmpPre]
+    | cons b bs =>
+      simp only [cmpPre, ne_eq, reduceCtorEq, not_false_eq_true, true_and, and_false, false_or]
+      rw [lex_lt_iff good_cmpIdent]
+      constructor
+      · exact LexLt.imp (fun a b h => (cmpIdent_lt_iff a b).1 h)
+      · exact LexLt.imp (fun a b h => (cmpIdent_lt_iff a b).2 h)
+
+/-- **`compare` is the declarative precedence** -/
+theorem cmpVersion_lt_iff_prec (v w : Version) : cmpVersion v w = .lt ↔ Prec v w := by
+  unfold cmpVersion Prec
+  simp only [andThen_lt, cmpNat_lt, cmpNat_eq, cmpPre_lt_iff]
+
+theorem cmpVersion_gt_iff_prec (v w : Version) : cmpVersion v w = .gt ↔ Prec w v := by
+  rw [good_cmpVersion.gt_iff, cmpVersion_lt_iff_prec]
+
+/-- equal precedence = equal up to build metadata -/
+theorem cmpVersion_eq_iff (v w : Version) : cmpVersion v w = .eq ↔ v = w := good_cmpVersion.eq_iff v w
+
+theorem prec_irrefl (v : Version) : ¬ Prec v v := by
+  rw [← cmpVersion_lt_iff_prec, good_cmpVersion.refl]; simp
+
+theorem prec_trans {u v w : Version} (h1 : Prec u v) (h2 : Prec v w) : Prec u w := by
+  rw [← cmpVersion_lt_iff_prec] at *
+  exact good_cmpVersion.trans _ _ _ h1 h2
+
+theorem prec_asymm {v w : Version} (h : Prec v w) : ¬ Prec w v := fun h' => prec_irrefl v (prec_trans h h')
+
+/-- any two versions are comparable: lower, equal up to build metadata, or higher -/
+theorem prec_trichotomy (v w : Version) : Prec v w ∨ v = w ∨ Prec w v := by
+  rw [← cmpVersion_lt_iff_prec, ← cmpVersion_eq_iff, ← cmpVersion_gt_iff_prec]
+  cases cmpVersion v w <;> simp
+
+/-- what "strictly higher" means for the version strings Install compares -/
+theorem compareVersions_gt_iff (vn vo : Text) :
+    compareVersions vn vo = some .gt ↔
+      ∃ a b, parseVersion vn = some a ∧ parseVersion vo = some b ∧ Prec b a := by
+  unfold compareVersions
+  cases parseVersion vn <;> cases parseVersion vo <;> simp [cmpVersion_gt_iff_prec]
+
+theorem compareVersions_swap (v w : Text) :
+    compareVersions w v = (compareVersions v w).map Ordering.swap := by
+  unfold compareVersions
+  cases parseVersion v with
+  | none => cases parseVersion w <;> rfl
+  | some a =>
+    cases parseVersion w with
+    | none => rfl
+    | some b =>
+      show some (cmpVersion b a) = some ((cmpVersion a b).swap)
+      rw [good_cmpVersion.swap a b]
+
+theorem splitFirst_not_mem (sep : Char) : ∀ (s : List Char), sep ∉ s → splitFirst sep s = (s, none) := by
+  intro s; induction s with
+  | nil => intro _; rfl
+  | cons c r ih =>
+    intro h
+    have hc : (c == sep) = false := by
+      apply beq_eq_false_iff_ne.2; intro e; exact h (by simp [e])
+    have hr : sep ∉ r := fun hm => h (List.mem_cons_of_mem _ hm)
+    simp [splitFirst, hc, ih hr]
+
+theorem splitFirst_append (sep : Char) : ∀ (s b : List Char), sep ∉ s →
+    splitFirst sep (s ++ sep :: b) = (s, some b) := by
+  intro s; induction s with
+  | nil => intro b _; simp [splitFirst]
+  | cons c r ih =>
+    intro b h
+    have hc : (c == sep) = false := by
+      apply beq_eq_false_iff_ne.2; intro e; exact h (by simp [e])
+    have hr : sep ∉ r := fun hm => h (List.mem_cons_of_mem _ hm)
+    simp [splitFirst, hc, ih b hr]
+
+/-- **build metadata is ignored**: appending well-formed build metadata to a version string
+without one gives the same parsed version (hence the same precedence) -/
+theorem build_metadata_ignored (s b : Text) (hs : '+' ∉ s)
+    (hb : (splitOn '.' b).all validBuildIdent = true) (hv : isValid s = true) :
+    parseVersion (s ++ '+' :: b) = parseVersion s := by
+  unfold parseVersion
+  rw [splitFirst_append '+' s b hs, splitFirst_not_mem '+' s hs]
+  simp [hb]
+
+/-! ## 3. installation: the readable theorems on the stateful model -/
+
+/-- **refused_is_noop**: whatever the refusal (unusable source, invalid name, invalid or
+misnamed metadata, lower / equal / invalid version, missing plugin on uninstall), the plugin
+root is exactly what it was -/
+theorem refused_is_noop (st : State) (op : Op) (h : (step st op).1.err ≠ .ok) : (step st op).2 = st := by
+  unfold step at h ⊢
+  cases hk : op.kind with
+  | install =>
+    simp only [hk, install] at h ⊢
+    cases hn : newOf op (locate op) with
+    | none => rfl
+    | some nw =>
+      simp only [hn] at h ⊢
+      cases hr : versionRule st op.overwrite nw with
+      | error e => rfl
+      | ok ex => simp [hr] at h
+  | uninstall =>
+    simp only [hk, uninstall] at h ⊢
+    by_cases hv : validName op.name = true
+    · cases hf : findBy Plugin.name op.name st <;> simp [hv, hf] at h ⊢
+    · simp [hv]
+
+theorem install_err_eq (st : State) (hi : Inv st) (op : Op) (hk : op.kind = .install) :
+    (install st op).1.err = (specStep (observe st) op).err := by
+  have := (step_eq_spec hi op).1
+  have h2 : (stepObs st op).err = (install st op).1.err := by simp [stepObs, step, hk]
+  rw [← h2, this]
+
+/-- **replace_iff**: an existing, answering plugin is replaced by a usable source of the same
+name iff overwrite is requested or the new version is strictly higher -/
+theorem replace_iff (st : State) (hi : Inv st) (op : Op) (hk : op.kind = .install) (nw : New)
+    (hn : specNew op = some nw) (p : Plugin) (hp : findBy Plugin.name nw.name st = some p)
+    (vo : Text) (ha : answer p = some vo) :
+    (install st op).1.err = .ok ↔ (op.overwrite = true ∨ compareVersions nw.version vo = some .gt) := by
+  rw [install_err_eq st hi op hk]
+  unfold specStep
+  have hl : lookupR (observe st) nw.name = some (pobs p) := by rw [lookupR_observe, hp]; rfl
+  have hv : (pobs p).version = some vo := ha
+  simp only [hk, hn, ruleR, hl, hv]
+  rcases versionCheck_cases (some vo) op.overwrite nw.version with
+    ⟨ho, h⟩ | ⟨ho, hv', h⟩ | ⟨ho, vo', hv', ⟨h1, h⟩ | ⟨h1, h⟩ | ⟨h1, h⟩ | ⟨h1, h⟩⟩
+  all_goals (try cases hv')
+  all_goals (rw [ho] at h)
+  all_goals simp [h, ho, mkStep]
+  all_goals simp [h1]
+
+/-- a source that installs for the first time (no plugin of that name) always succeeds -/
+theorem fresh_install_succeeds (st : State) (hi : Inv st) (op : Op) (hk : op.kind = .install) (nw : New)
+    (hn : specNew op = some nw) (hp : findBy Plugin.name nw.name st = none) :
+    (install st op).1.err = .ok := by
+  rw [install_err_eq st hi op hk]
+  unfold specStep
+  have hl : lookupR (observe st) nw.name = none := by rw [lookupR_observe, hp]; rfl
+  simp [hk, hn, ruleR, hl, mkStep]
+
+theorem versionCheck_err_ne_ok {ex : Option Text} {ow : Bool} {vn : Text} {e : Err}
+    (h : versionCheck ex ow vn = .error e) : e ≠ .ok := by
+  rcases versionCheck_cases ex ow vn with
+    ⟨_, h'⟩ | ⟨_, _, h'⟩ | ⟨_, _, _, ⟨_, h'⟩ | ⟨_, h'⟩ | ⟨_, h'⟩ | ⟨_, h'⟩⟩
+  all_goals (rw [h'] at h; cases h)
+  all_goals (intro hh; cases hh)
+
+theorem versionRule_err_ne_ok {st : State} {ow : Bool} {nw : New} {e : Err}
+    (h : versionRule st ow nw = .error e) : e ≠ .ok := by
+  unfold versionRule at h
+  cases hg : getExe st nw.name with
+  | none => simp [hg] at h
+  | some f => simp only [hg] at h; exact versionCheck_err_ne_ok h
+
+/-- a successful Install installed the plugin the source declares -/
+theorem install_ok_inv (st : State) (op : Op) (h : (install st op).1.err = .ok) :
+    ∃ nw, specNew op = some nw ∧ (install st op).2 = replace st nw ∧
+      (install st op).1.new = some nw.version := by
+  unfold install at h ⊢
+  rw [locate_eq_spec] at h ⊢
+  cases hn : newOf op (specLocate op) with
+  | none => simp [hn] at h
+  | some nw =>
+    simp only [hn] at h ⊢
+    cases hr : versionRule st op.overwrite nw with
+    | error e =>
+      simp only [hr] at h
+      exact absurd h (versionRule_err_ne_ok hr)
+    | ok ex => exact ⟨nw, hn, rfl, rfl⟩
+
+theorem topFiles_sorted (es : List Entry) : Sorted File.name (topFiles es) := sorted_sortBy File.name _
+
+/-- the names in the listing of the regular top-level files are exactly the names of the
+source's regular top-level entries: nothing from sub-directories, no symlinks -/
+theorem topFiles_names (es : List Entry) (n : Text) :
+    n ∈ (topFiles es).map File.name ↔ ∃ e ∈ es, e.kind = .file ∧ e.name = n := by
+  unfold topFiles
+  rw [mem_sortBy_keys]
+  simp only [List.mem_map, List.mem_filter]
+  constructor
+  · rintro ⟨f, ⟨e, ⟨he, hk⟩, rfl⟩, rfl⟩
+    exact ⟨e, he, by simpa using hk, rfl⟩
+  · rintro ⟨e, he, hk, rfl⟩
+    exact ⟨e.toFile, ⟨e, ⟨he, by simp [hk]⟩, rfl⟩, rfl⟩
+
+theorem copied_dir_obs (op : Op) (loc : Located) (hd : op.srcIsDir = true) :
+    (copied op loc).map (fun f => (f.name, f.cid, f.script)) =
+      (topFiles op.entries).map (fun f => (f.name, f.cid, f.script)) := by
+  simp only [copied, hd, if_true, List.map_map]
+  apply List.map_congr_left
+  intro f _
+  simp only [Function.comp]
+  split <;> rfl
+
+/-- **installed_exactly_toplevel**: after a successful Install the plugin's directory holds
+exactly the regular top-level files of the source directory (same names, same contents),
+resp. exactly the source file; every other plugin is untouched -/
+theorem installed_exactly_toplevel (st : State) (op : Op) (h : (install st op).1.err = .ok) :
+    ∃ nw, specNew op = some nw ∧
+      findBy Plugin.name nw.name (install st op).2 = some ⟨nw.name, nw.files⟩ ∧
+      (op.srcIsDir = true →
+        nw.files.map (fun f => (f.name, f.cid, f.script)) =
+          (topFiles op.entries).map (fun f => (f.name, f.cid, f.script))) ∧
+      (op.srcIsDir = false → ∃ e, op.entries = [e] ∧ nw.files = [e.toFile]) ∧
+      (∀ k, k ≠ nw.name → findBy Plugin.name k (install st op).2 = findBy Plugin.name k st) := by
+  obtain ⟨nw, hn, hst, _⟩ := install_ok_inv st op h
+  obtain ⟨loc, hl, hv, hm, hname, hfiles⟩ := newOf_some hn
+  refine ⟨nw, hn, ?_, ?_, ?_, ?_⟩
+  · rw [hst]; unfold replace; exact findBy_putBy_self Plugin.name ⟨nw.name, nw.files⟩ _
+  · intro hd; rw [hfiles]; exact copied_dir_obs op loc hd
+  · intro hd
+    unfold specLocate at hl
+    simp only [hd] at hl
+    obtain ⟨e, he, _, hx, hmk⟩ := locateFile_some hl
+    obtain ⟨hexe, _, _⟩ := mkLocated_some hmk
+    refine ⟨e, he, ?_⟩
+    rw [hfiles]
+    simp only [copied, hd, hexe]
+    simp [Entry.toFile, hx]
+  · intro k hk
+    rw [hst]
+    unfold replace
+    rw [findBy_putBy_ne Plugin.name _ _ (fun e => hk e.symm), findBy_delBy_ne Plugin.name _ hk]
+
+/-- **then_listable_fetchable_uninstallable**: after a successful Install the plugin is
+listed, `Get` + `GetMetadata` answer with the new version, and `Uninstall` by its name
+succeeds and removes it (and nothing else) -/
+theorem then_listable_fetchable_uninstallable (st : State) (op : Op) (h : (install st op).1.err = .ok) :
+    ∃ nw, specNew op = some nw ∧
+      nw.name ∈ ((observe (install st op).2).map (·.name)) ∧
+      (getExe (install st op).2 nw.name).bind (metadata nw.name) = some nw.version ∧
+      (uninstall (install st op).2 nw.name).1.err = .ok ∧
+      findBy Plugin.name nw.name (uninstall (install st op).2 nw.name).2 = none ∧
+      (∀ k, k ≠ nw.name →
+        findBy Plugin.name k (uninstall (install st op).2 nw.name).2 = findBy Plugin.name k st) := by
+  obtain ⟨nw, hn, hfind, _, _, hother⟩ := installed_exactly_toplevel st op h
+  have hv := newOf_valid hn
+  have hans := answer_new hn
+  refine ⟨nw, hn, ?_, ?_, ?_, ?_, ?_⟩
+  · have hmem := (findBy_some Plugin.name hfind).1
+    simp only [observe, List.map_map, List.mem_map]
+    exact ⟨_, hmem, rfl⟩
+  · simp only [getExe, hv, hfind, Bool.not_true, Bool.false_eq_true, if_false]
+    simpa [answer, hv] using hans
+  · simp [uninstall, hv, hfind]
+  · simp only [uninstall, hv, hfind, Bool.not_true, Bool.false_eq_true, if_false, Option.isSome_some, if_true]
+    exact findBy_delBy_self Plugin.name _ _
+  · intro k hk
+    simp only [uninstall, hv, hfind, Bool.not_true, Bool.false_eq_true, if_false, Option.isSome_some, if_true]
+    rw [findBy_delBy_ne Plugin.name _ hk, hother k hk]
+
+/-- **dir_equals_file_source**: a directory whose only executable `notation-*` file is `f`
+locates the same executable, name and (hence) metadata as the file `f` alone, whatever else
+the directory contains (extra files, non-executable candidates, sub-directories, symlinks) -/
+theorem dir_locates_its_executable (es : List Entry) (f : File) (h : execs (topFiles es) = [f])
+    (e : Entry) (he : e.kind = .file) (hf : e.toFile = f) :
+    specLocateDir es = locateFile [e] := by
+  have hmem : f ∈ execs (topFiles es) := by rw [h]; simp
+  have hx : f.exec = true := by simpa using (List.mem_filter.1 hmem).2
+  unfold specLocateDir locateFile
+  show (match execs (topFiles es) with
+    | [f] => mkLocated f false
+    | [] => (match cands (topFiles es) with
+      | [f] => mkLocated f true
+      | _ => none)
+    | _ => none) = _
+  rw [h]
+  have : e.exec = true := by rw [← hf] at hx; exact hx
+  simp [he, this, hf]
+
+theorem dir_equals_file_source (st : State) (ow : Bool) (base : Text) (es : List Entry) (f : File)
+    (h : execs (topFiles es) = [f]) (e : Entry) (he : e.kind = .file) (hf : e.toFile = f) :
+    let opD : Op := ⟨.install, [], ow, true, base, es⟩
+    let opF : Op := ⟨.install, [], ow, false, f.name, [e]⟩
+    (install st opD).1 = (install st opF).1 ∧
+    (∀ nw, specNew opD = some nw →
+        ∃ nw', specNew opF = some nw' ∧ nw'.name = nw.name ∧ nw'.version = nw.version ∧
+          nw'.files = [f] ∧ nw.files = topFiles es ∧
+          findBy File.name (binName nw.name) nw.files = some f) := by
+  intro opD opF
+  have hloc : specLocate opD = specLocate opF := by
+    simp only [specLocate, opD, opF]
+    exact dir_locates_its_executable es f h e he hf
+  have hmem : f ∈ execs (topFiles es) := by rw [h]; simp
+  have hx : f.exec = true := by simpa using (List.mem_filter.1 hmem).2
+  have hmk : specLocate opF = mkLocated f false := by
+    have : e.exec = true := by rw [← hf] at hx; exact hx
+    simp [specLocate, opF, locateFile, he, this, hf]
+  have key : ∀ nw, specNew opD = some nw →
+      ∃ nw', specNew opF = some nw' ∧ nw'.name = nw.name ∧ nw'.version = nw.version ∧
+        nw'.files = [f] ∧ nw.files = topFiles es ∧
+        findBy File.name (binName nw.name) nw.files = some f := by
+    intro nw hn
+    obtain ⟨loc, hl, hv, hm, hname, hfiles⟩ := newOf_some hn
+    have hl' : specLocate opF = some loc := by rw [← hloc]; exact hl
+    rw [hmk] at hl'
+    obtain ⟨hexe, hpn, hch⟩ := mkLocated_some hl'
+    have hexe' : loc.exe = f := by rw [hexe]; cases f; simp
+    have hfc := find_copied hl
+    refine ⟨⟨loc.name, nw.version, [loc.exe]⟩, ?_, hname.symm, rfl, by simp [hexe'], ?_, ?_⟩
+    · simp [specNew, newOf, hmk, hl', hv, hm, copied, opF]
+    · rw [hfiles]; simp [copied, opD, hch]
+    · rw [hname, hfiles, hfc, hexe']
+  refine ⟨?_, key⟩
+  -- the outcome depends on the source only through the located name and version
+  simp only [install, locate_eq_spec]
+  cases hnD : newOf opD (specLocate opD) with
+  | none =>
+    have : newOf opF (specLocate opF) = none := by
+      rw [← hloc]
+      unfold newOf at hnD ⊢
+      cases hl : specLocate opD with
+      | none => rfl
+      | some l =>
+        simp only [hl] at hnD ⊢
+        by_cases hv : validName l.name = true
+        · simp only [hv, Bool.not_true, Bool.false_eq_true, if_false] at hnD ⊢
+          cases hm : metadata l.name l.exe with
+          | none => rfl
+          | some v => simp [hm] at hnD
+        · simp [hv]
+    simp [this]
+  | some nw =>
+    obtain ⟨nw', hn', hname, hver, _⟩ := key nw hnD
+    have hn'' : newOf opF (specLocate opF) = some nw' := hn'
+    simp only [hn'']
+    have : versionRule st opD.overwrite nw = versionRule st opF.overwrite nw' := by
+      simp [versionRule, hname, hver, opD, opF]
+    rw [this]
+    cases versionRule st opF.overwrite nw' <;> simp [hver]
+
+/-! ### the invariant over arbitrary operation sequences -/
+
+/-- a well-formed plugin root: one directory per name (sorted listing), every name a single
+path element, every directory a sorted set of files, and **every plugin answers** (can be
+fetched by its name and reports metadata) - nothing is ever left half-replaced -/
+def WFState (st : State) : Prop :=
+  Sorted Plugin.name st ∧ Inv st ∧ ∀ p ∈ st, validName p.name = true ∧ Sorted File.name p.files
+
+def finalState (st : State) (ops : List Op) : State := ops.foldl (fun s op => (step s op).2) st
+
+theorem sorted_copied (op : Op) (loc : Located) : Sorted File.name (copied op loc) := by
+  unfold copied
+  split
+  · unfold Sorted
+    rw [List.pairwise_map]
+    refine List.Pairwise.imp ?_ (topFiles_sorted op.entries)
+    intro a b hab
+    have ha : ∀ g : File, (if (loc.chmod && g.name == loc.exe.name) = true then { g with exec := true } else g).name = g.name := by
+      intro g; split <;> rfl
+    rw [ha, ha]; exact hab
+  · simp [Sorted]
+
+theorem wf_step {st : State} (h : WFState st) (op : Op) : WFState (step st op).2 := by
+  obtain ⟨hs, hi, hp⟩ := h
+  refine ⟨?_, (step_eq_spec hi op).2.1, ?_⟩
+  · unfold step
+    cases hk : op.kind with
+    | install =>
+      simp only [install]
+      cases hn : newOf op (locate op) with
+      | none => exact hs
+      | some nw =>
+        simp only []
+        cases versionRule st op.overwrite nw with
+        | error e => exact hs
+        | ok ex => exact sorted_putBy Plugin.name _ (sorted_delBy Plugin.name _ hs)
+    | uninstall =>
+      simp only [uninstall]
+      by_cases hv : validName op.name = true
+      · cases hf : findBy Plugin.name op.name st
+        · simp [hv, hf]; exact hs
+        · simp [hv, hf]; exact sorted_delBy Plugin.name _ hs
+      · simp [hv]; exact hs
+  · unfold step
+    cases hk : op.kind with
+    | install =>
+      simp only [install]
+      cases hn : newOf op (locate op) with
+      | none => exact hp
+      | some nw =>
+        simp only []
+        cases versionRule st op.overwrite nw with
+        | error e => exact hp
+        | ok ex =>
+          intro p hmem
+          rcases mem_putBy Plugin.name hmem with rfl | hmem
+          · obtain ⟨loc, _, _, _, _, hfiles⟩ := newOf_some hn
+            exact ⟨newOf_valid hn, by simp only [hfiles]; exact sorted_copied op loc⟩
+          · exact hp p (List.mem_filter.1 hmem).1
+    | uninstall =>
+      simp only [uninstall]
+      by_cases hv : validName op.name = true
+      · cases hf : findBy Plugin.name op.name st
+        · simp [hv, hf]; exact hp
+        · simp only [hv, hf, Bool.not_true, Bool.false_eq_true, if_false, Option.isSome_some, if_true]
+          intro p hmem; exact hp p (List.mem_filter.1 hmem).1
+      · simp [hv]; exact hp
+
+/-- **invariant over operation sequences** (induction on the sequence, any length) -/
+theorem wf_finalState : ∀ (ops : List Op) {st : State}, WFState st → WFState (finalState st ops) := by
+  intro ops
+  induction ops with
+  | nil => intro st h; exact h
+  | cons op ops ih => intro st h; exact ih (wf_step h op)
+
+theorem wf_from_empty (ops : List Op) : WFState (finalState [] ops) :=
+  wf_finalState ops ⟨List.Pairwise.nil, inv_nil, fun _ h => by cases h⟩
+
+/-- hence after any history every installed plugin can be fetched and answers -/
+theorem never_half_replaced (ops : List Op) : ∀ p ∈ finalState [] ops, (answer p).isSome = true :=
+  (wf_from_empty ops).2.1
+
+/-! ## 4. non-vacuity -/
+
+section examples
+
+private def t (s : String) : Text := s.toList
+
+/-- the chain of semver.org item 11 -/
+example : (["1.0.0-alpha", "1.0.0-alpha.1", "1.0.0-alpha.beta", "1.0.0-beta", "1.0.0-beta.2", "1.0.0-beta.11",
+    "1.0.0-rc.1", "1.0.0"].zip ["1.0.0-alpha.1", "1.0.0-alpha.beta", "1.0.0-beta", "1.0.0-beta.2",
+    "1.0.0-beta.11", "1.0.0-rc.1", "1.0.0", "1.0.1"]).all
+    (fun p => compareVersions (t p.1) (t p.2) == some .lt) = true := by decide
+example : compareVersions (t "1.1.0+build5") (t "1.1.0") = some .eq := by decide
+example : compareVersions (t "10.0.0") (t "9.0.0") = some .gt := by decide
+example : compareVersions (t "1.0.0-2") (t "1.0.0-11") = some .lt := by decide
+example : compareVersions (t "1.0.0-11") (t "1.0.0-2a") = some .lt := by decide
+example : (["1.0", "v1.0.0", "01.0.0", "", "1.0.0-01", "1.0.0+", "1.0.0-a..b", "1.0.0+a+b", "1.0.0 "].map
+    (fun s => isValid (t s))) = [false, false, false, false, false, false, false, false, false] := by decide
+example : (["0.0.0", "1.0.0-0a", "1.0.0--", "1.0.0-a.-.b+001", "1.2.3-rc.1+b.7"].map
+    (fun s => isValid (t s))) = [true, true, true, true, true] := by decide
+
+private def sFoo (v : String) : Script := ⟨t "foo", t v, true⟩
+private def exeFoo (v : String) (cid : Nat) (exe : Bool := true) : Entry :=
+  ⟨.file, t "notation-foo", exe, cid, some (sFoo v), []⟩
+private def extra (n : String) (cid : Nat) : Entry := ⟨.file, t n, false, cid, none, []⟩
+private def instFile (v : String) (cid : Nat) (ow : Bool := false) : Op :=
+  ⟨.install, [], ow, false, t "notation-foo", [exeFoo v cid]⟩
+private def instDir (es : List Entry) (ow : Bool := false) : Op := ⟨.install, [], ow, true, t "pkg", es⟩
+private def seq (ops : List Op) : Input := ⟨"seq", ops, [], []⟩
+private def errs (i : Input) : List Err := (run i).steps.map (·.err)
+private def versions (i : Input) : List (List (Option Text)) := (run i).steps.map (fun s => s.root.map (·.version))
+
+-- upgrade replaces, equal and lower are refused with their classes, overwrite replaces
+example : errs (seq [instFile "1.0.0" 1, instFile "1.1.0-alpha" 2, instFile "1.1.0-alpha" 3, instFile "1.0.1" 4,
+    instFile "1.0.1" 5 true, instFile "1.0" 6, ⟨.uninstall, t "foo", false, false, [], []⟩,
+    ⟨.uninstall, t "foo", false, false, [], []⟩]) =
+    [.ok, .ok, .equalVersion, .downgrade, .ok, .other, .ok, .notExist] := by decide
+example : versions (seq [instFile "1.0.0" 1, instFile "1.1.0-alpha" 2, instFile "1.0.1" 4, instFile "1.0.1" 5 true]) =
+    [[some (t "1.0.0")], [some (t "1.1.0-alpha")], [some (t "1.1.0-alpha")], [some (t "1.0.1")]] := by decide
+-- a directory: exactly the regular top-level files, in listing order; the single
+-- non-executable candidate is made executable although `zlib.so` sorts after it
+example : (run (seq [instDir [extra "zlib.so" 3, exeFoo "2.0.0" 2 false, extra "LICENSE" 1,
+      ⟨.dir, t "sub", false, 4, none, [⟨t "notation-foo", true, 5, none⟩, ⟨t "deep.txt", false, 6, none⟩]⟩,
+      ⟨.symlink, t "link", true, 7, none, []⟩]])).steps.map (·.root) =
+    [[⟨t "foo", [⟨t "LICENSE", 1, false⟩, ⟨t "notation-foo", 2, true⟩, ⟨t "zlib.so", 3, false⟩], some (t "2.0.0")⟩]] := by
+  decide
+-- two executable candidates, two non-executable candidates, no candidate: refused
+example : errs (seq [instDir [exeFoo "1.0.0" 1, ⟨.file, t "notation-bar", true, 2, some ⟨t "bar", t "1.0.0", true⟩, []⟩],
+    instDir [exeFoo "1.0.0" 1 false, ⟨.file, t "notation-bar", false, 2, some ⟨t "bar", t "1.0.0", true⟩, []⟩],
+    instDir [extra "LICENSE" 1]]) = [.other, .other, .other] := by decide
+
+/-- the witness of the defect repaired in ee0c8a6: the only candidate sits in a sub-directory
+named like the source directory -/
+private def halfReplace : Input :=
+  seq [instFile "1.0.0" 1, instDir [extra "LICENSE" 2, ⟨.dir, t "pkg", false, 3, none, [⟨t "notation-foo", true, 4, some (sFoo "2.0.0")⟩]⟩]]
+
+/-- the repaired code refuses it and keeps the installed plugin -/
+example : errs halfReplace = [.ok, .other] ∧ versions halfReplace = [[some (t "1.0.0")], [some (t "1.0.0")]] := by decide
+example : Holds halfReplace (run halfReplace) = true := by decide
+
+/-- what the defective code did (observed before the repair): "success", the old executable
+gone, the new one never copied. `Holds` is **false** of that observation. -/
+private def halfReplaceObs : Obs :=
+  ⟨[⟨.ok, none, some (t "1.0.0"), [⟨t "foo", [⟨t "notation-foo", 1, true⟩], some (t "1.0.0")⟩], [t "foo"]⟩,
+    ⟨.ok, some (t "1.0.0"), some (t "2.0.0"), [⟨t "foo", [⟨t "LICENSE", 2, false⟩], none⟩], [t "foo"]⟩],
+   false, false, none⟩
+example : Holds halfReplace halfReplaceObs = false := by decide
+example : (clauses halfReplace halfReplaceObs).failed =
+    ["installed_exactly_toplevel_files_and_new_metadata", "replaced_only_if_higher_or_overwrite",
+     "installs_when_the_rules_allow", "every_installed_plugin_answers"] := by decide
+
+/-- a downgrade that "succeeds" violates the version rule clause -/
+example : Holds (seq [instFile "1.1.0" 1, instFile "1.0.0" 2])
+    ⟨[⟨.ok, none, some (t "1.1.0"), [⟨t "foo", [⟨t "notation-foo", 1, true⟩], some (t "1.1.0")⟩], [t "foo"]⟩,
+      ⟨.ok, some (t "1.1.0"), some (t "1.0.0"), [⟨t "foo", [⟨t "notation-foo", 2, true⟩], some (t "1.0.0")⟩], [t "foo"]⟩],
+     false, false, none⟩ = false := by decide
+
+/-- a refusal that nevertheless changed the root violates the no-op clause -/
+example : Holds (seq [instFile "1.1.0" 1, instFile "1.0.0" 2])
+    ⟨[⟨.ok, none, some (t "1.1.0"), [⟨t "foo", [⟨t "notation-foo", 1, true⟩], some (t "1.1.0")⟩], [t "foo"]⟩,
+      ⟨.downgrade, none, none, [], []⟩], false, false, none⟩ = false := by decide
+
+end examples
 
 end NotationModel.C20
